@@ -12,6 +12,13 @@
 //!  - receiving half terminal (3.2 "Data Read" / "Reset Read"): the reader was shown end-of-stream or the reset code;
 //!    or it stopped the stream and the final size is known (nothing is left to read or to account for).
 //!  - a unidirectional stream has one half.
+//! C11: "Stopped once per stopped stream": a sending half is stopped when a STOP_SENDING frame of the peer (sent by the
+//!    TEST, for a stream that exists: RFC 9000 19.5) reaches it while it is not terminal (3.1: before "Data Recvd" /
+//!    "Reset Recvd"; 3.5: "STOP_SENDING ... in the Reset Sent state" changes nothing on the wire, but the application
+//!    interface still reports the peer's code) AND the implementation's own answer shows the half with that stop reason
+//!    (`stopped()` = Some(code), the `sr` observable). Such a half owes the application exactly one `Stopped id`; the
+//!    debt is judged when the application has polled until `none` (nothing is queued any more). Nothing is demanded for
+//!    a half that is gone (fully acknowledged / reset acknowledged / never created / forgotten by a 0-RTT rejection).
 //! C02: "... a lost application event": a reader that was told `Blocked` must find `Readable` queued once a frame of
 //! the peer makes data contiguous at its read offset, ends the stream there, or resets it.
 use std::collections::{BTreeMap, BTreeSet};
@@ -46,6 +53,12 @@ pub struct Hist11 {
     /// streams of the peer the application has been handed by `accept`: for the others a pending `Opened` is the
     /// notification (C02: "reading when a stream is reported readable or opened")
     accepted: BTreeSet<u64>,
+    /// C11 "Stopped once per stopped stream": halves stopped by a STOP_SENDING of the test while live (id -> code of the
+    /// frame); `Stopped id` events handed to the application by poll
+    stop_due: BTreeMap<u64, u64>,
+    stopped_delivered: BTreeMap<u64, u64>,
+    /// the test's own operations on a stream with the answers it was given (last 16), quoted in the report as the replay
+    oplog: BTreeMap<u64, Vec<String>>,
     /// the history left the scope of the ghost (a frame the RFC refuses was accepted with effect)
     off: bool,
 }
@@ -96,6 +109,9 @@ impl Hist11 {
             self.wrote.retain(|id, _| keep(id));
             self.acked.retain(|id, _| keep(id));
             self.rd_off.retain(|id, _| keep(id));
+            self.stop_due.retain(|id, _| keep(id));
+            self.stopped_delivered.retain(|id, _| keep(id));
+            self.oplog.retain(|id, _| keep(id));
             for set in [&mut self.finished, &mut self.reset, &mut self.fin_acked, &mut self.fin_complete, &mut self.send_done,
                 &mut self.fin_queued, &mut self.fin_delivered, &mut self.stopped, &mut self.final_known, &mut self.recv_term,
                 &mut self.read_blocked] {
@@ -111,6 +127,13 @@ impl Hist11 {
         }
         let line = w.join(" ");
         let id: Option<u64> = w.get(1).and_then(|x| x.parse().ok());
+        if let Some(id) = id {
+            let l = self.oplog.entry(id).or_default();
+            l.push(format!("{line} -> {}", v.result));
+            if l.len() > 16 {
+                l.remove(0);
+            }
+        }
         let ok = v.result == "ok" || v.result.starts_with("ok ");
         let num = |i: usize| w.get(i).and_then(|x| x.parse::<u64>().ok()).unwrap_or(0);
         // a stream of the peer the application does not hold yet: a pending `Opened` of its direction announces it
@@ -205,6 +228,14 @@ impl Hist11 {
                     self.recv_term.insert(id);
                 }
             }
+            ("stopsend", Some(id)) if legal => {
+                // the frame is one the RFC accepts (the stream exists: `legal`), by the history the sending half is not
+                // terminal, and the implementation itself now reports the half as stopped
+                let shown = v.ss(id, "sr").map_or(false, |s| s != "-");
+                if !self.send_done.contains(&id) && shown && !self.stop_due.contains_key(&id) {
+                    self.stop_due.insert(id, num(2));
+                }
+            }
             ("stream", Some(id)) | ("rst", Some(id)) if ok && legal => {
                 let is_rst = w[0] == "rst";
                 let fin = is_rst || num(4) == 1;
@@ -246,6 +277,26 @@ impl Hist11 {
                     Some("Readable") => {
                         if let Some(id) = it.next().and_then(|x| x.parse::<u64>().ok()) {
                             self.read_blocked.remove(&id);
+                        }
+                    }
+                    Some("Stopped") => {
+                        if let Some(id) = it.next().and_then(|x| x.parse::<u64>().ok()) {
+                            *self.stopped_delivered.entry(id).or_insert(0) += 1;
+                        }
+                    }
+                    // the application polled until nothing is reported: every stopped half has been announced once
+                    Some("none") => {
+                        let due: Vec<(u64, u64)> = self.stop_due.iter().map(|(a, b)| (*a, *b)).collect();
+                        for (id, code) in due {
+                            let n = self.stopped_delivered.get(&id).cloned().unwrap_or(0);
+                            if n == 0 {
+                                out.push(("C11-stopped-event-missing", format!(
+                                    "poll -> none: the peer's STOP_SENDING {id} (code {code}) reached the sending half of stream {id} while it was not terminal (application reset() before: {}, finish() before: {}), the half reports the stop ({}), and the application polled every event without being handed Stopped {id}; operations on the stream: {:?}",
+                                    self.reset.contains(&id), self.finished.contains(&id),
+                                    v.ss(id, "sr").map_or("half freed since".to_string(), |s| format!("stopped() = {s} now")),
+                                    self.oplog.get(&id).cloned().unwrap_or_default())));
+                                self.stop_due.remove(&id);
+                            }
                         }
                     }
                     _ => {}
